@@ -318,6 +318,34 @@ func init() {
 }
 
 func init() {
+	// C03: an oracle pool whose weights sit far from their targets (10 : 90 by value against 50 : 50) and whose rebalance treasury is
+	// funded: swaps that bring in the scarce asset earn a weight-recovery bonus. The bonus is the treasury's to pay; the pool's own
+	// account must never pay out more value than it takes in.
+	scenarios["c03-bonus-from-treasury"] = func(sc *Scn) {
+		w := sc.w
+		trader := w.Accts[3]
+		var ref PoolRef
+		w.Seed(func(ctx sdk.Context) {
+			w.App.AssetprofileKeeper.SetEntry(ctx, aptypes.Entry{BaseDenom: "uusdt", Denom: "uusdt", Decimals: 6, DisplayName: "USDT", CommitEnabled: true, WithdrawEnabled: true})
+			w.App.OracleKeeper.SetAssetInfo(ctx, oracletypes.AssetInfo{Denom: "uusdt", Display: "USDT", Decimal: 6, BandTicker: "USDT", ElysTicker: "USDT"})
+			w.SetPrice(ctx, "USDT", D("1"), sc.std.Feeder.Addr.String())
+			w.Fund(ctx, w.Accts[0].Addr, sdk.NewCoins(sdk.NewCoin("uusdt", math.NewInt(20_000_000_000_000))))
+			ref = w.createPool(ctx, w.Accts[0].Addr, true, D("0"), "uusdt", math.NewInt(1_000_000_000_000), math.NewInt(9_000_000_000_000), 10, 10)
+			w.Fund(ctx, sdk.MustAccAddressFromBech32(ref.Treasury), sdk.NewCoins(sdk.NewCoin("uusdt", math.NewInt(1_000_000_000_000)), sdk.NewCoin("uusdc", math.NewInt(1_000_000_000))))
+		})
+		w.Block(5*time.Second, nil)
+		sc.Rebegin(ref)
+		for _, a := range []int64{100_000_000_000, 1_000_000, 50_000_000_000, 250_000_000_000, 7, 400_000_000_000} {
+			sc.Tx("amm.swapIn", trader, J{"pool": ref.Id, "in": []string{"uusdc", itoa(uint64(a))}, "hops": 1},
+				&ammtypes.MsgSwapExactAmountIn{Sender: trader.Addr.String(), Routes: []ammtypes.SwapAmountInRoute{{PoolId: ref.Id, TokenOutDenom: "uusdt"}},
+					TokenIn: sdk.NewCoin("uusdc", math.NewInt(a)), TokenOutMinAmount: math.OneInt(), Recipient: trader.Addr.String()})
+		}
+		// and back: the other direction pays the weight-breaking fee into the treasury
+		sc.Tx("amm.swapIn", trader, J{"pool": ref.Id, "in": []string{"uusdt", "300000000000"}, "hops": 1},
+			&ammtypes.MsgSwapExactAmountIn{Sender: trader.Addr.String(), Routes: []ammtypes.SwapAmountInRoute{{PoolId: ref.Id, TokenOutDenom: "uusdc"}},
+				TokenIn: sdk.NewCoin("uusdt", math.NewInt(300_000_000_000)), TokenOutMinAmount: math.OneInt(), Recipient: trader.Addr.String()})
+	}
+
 	// C09/C11: a perpetual pool driven to saturation (recorded long custody close to what the amm pool holds), then pure
 	// collateral top-ups (leverage 0) and further opens of decreasing size: each must be refused or leave custody backed.
 	scenarios["c09-saturated-pool-topups"] = func(sc *Scn) {
